@@ -26,7 +26,9 @@ RULE = (
     "whose cell values encode (variable, row, column), float64/float32/int64 data with optional NaN holes, default or custom dims, "
     "1-D axis vectors or 2-D meshgrids (C/F order, read-only), Dataset / named / unnamed DataArray inputs with coordinates declared in either "
     "order; plus clear non-meshgrids (deviation >= 10 % of the node spacing, transposed or ij-indexed arrays), wrong name counts, and nested uses "
-    "through BaseGridder.grid and project_grid; make_xarray_grid called with dims / extra_coords_names by keyword, POSITIONALLY (4th / 5th "
+    "through BaseGridder.grid and project_grid; data and extra coordinates as numpy.ma.MaskedArray (some / no cells masked, -99999 stored under "
+    "the mask: masked cells must come out as NaN in grid and table) and as lists of lists; large grids of >= 2**18 cells (450x600, 512x512, "
+    "300x1000, ...) through make_xarray_grid -> grid_to_table for Dataset and DataArray inputs with every row compared; make_xarray_grid called with dims / extra_coords_names by keyword, POSITIONALLY (4th / 5th "
     "argument, default and custom dims, with and without extra coordinates) and all-keyword, each grid also compared with what the workload "
     "asked for; equivalent spellings (axis vectors as float / int64 arrays or Python lists, names as bare string, "
     "list, tuple of 1..4, DataArray names 0 and \"\", extra coordinates / variables that are exactly zero, one bare string offered for several "
@@ -58,6 +60,9 @@ _QUICK_FLOORS = {
     "eval:make_grid_as_intended": 1000, "class:make_call_positional_dims_custom_dims": 80,
     "class:make_call_positional_dims_and_extra_coords_names_custom_dims": 150, "class:make_call_positional_with_extra_coordinates": 200,
     "class:make_call_positional_without_extra_coordinates": 150, "class:make_call_all_keywords": 140,
+    # containers: masked arrays (masked cells must come out as NaN), lists of lists
+    "spelling:make_data=masked_some": 120, "spelling:make_data=masked_none": 50, "spelling:make_data=list_of_lists": 80,
+    "spelling:make_extra_coordinate=masked_some": 80,
     # equivalent spellings
     "spelling:make_axis=list": 75, "spelling:make_axis=ndarray_int64": 130, "spelling:make_data_names=tuple_of_1": 120,
     "spelling:make_data_names=str_of_1": 85, "spelling:make_extra_coords_names=tuple_of_2": 100, "spelling:make_extra_coords_names=str_of_1": 100,
@@ -71,7 +76,8 @@ _QUICK_FLOORS = {
     "class:twin_calls_make_xarray_grid_2d": 128, "class:twin_calls_grid_to_table": 128,
     "class:check_meshgrid_clear": 1100, "refused:non_meshgrid": 1100, "refused:name_count": 280,
 }
-FLOORS = {"quick": dict(_QUICK_FLOORS), "thorough": {k: 20 * v for k, v in _QUICK_FLOORS.items()}}
+FLOORS = {"quick": dict(_QUICK_FLOORS, **{"class:large_grids_of_2**18_cells_or_more": 2}),
+          "thorough": dict({k: 20 * v for k, v in _QUICK_FLOORS.items()}, **{"class:large_grids_of_2**18_cells_or_more": 12})}
 JOBS = {"quick": 1, "thorough": 8}
 CASE_TIMEOUT_S = 120
 
@@ -86,8 +92,8 @@ PER_CASE = 8  # grids per case
 
 def plan(tier):
     if tier == "quick":
-        return collections.OrderedDict(make=260, table=220, convert=100, reject=90, nested=40, probe=6, twin=40)
-    return collections.OrderedDict(make=5200, table=4400, convert=2000, reject=1800, nested=800, probe=40, twin=800)
+        return collections.OrderedDict(make=260, table=220, convert=100, reject=90, nested=40, probe=6, twin=40, large=3)
+    return collections.OrderedDict(make=5200, table=4400, convert=2000, reject=1800, nested=800, probe=40, twin=800, large=30)
 
 
 # ----------------------------------------------------------------------
@@ -440,9 +446,10 @@ def install(tap, run):
                             var = ds[name]
                             if tuple(var.dims) != tuple(dims):
                                 problems.append("variable %r has dims %s, requested %s" % (name, var.dims, tuple(dims)))
-                            elif not same(var.values, value):
-                                bad = _first_bad_cell(var.values, value)
-                                problems.append("variable %r: cell %s holds %r, its source cell holds %r" % ((name,) + bad))
+                            elif not same(var.values, visible(value)):
+                                bad = _first_bad_cell(var.values, visible(value))
+                                problems.append("variable %r: cell %s holds %r, its source cell shows %r%s" % (
+                                    (name,) + bad + (" (a masked cell must show NaN)" if isinstance(value, np.ma.MaskedArray) else "",)))
                 got_extra = [str(c) for c in ds.coords if str(c) not in (str(dims[0]), str(dims[1]))]
                 if sorted(got_extra) != sorted(str(n) for n in enames):
                     problems.append("extra coordinates %r, expected %r" % (got_extra, list(enames)))
@@ -451,11 +458,18 @@ def install(tap, run):
                         var = ds.coords[name]
                         if tuple(var.dims) != tuple(dims):
                             problems.append("extra coordinate %r has dims %s, requested %s" % (name, var.dims, tuple(dims)))
-                        elif not same(var.values, value):
-                            bad = _first_bad_cell(var.values, value)
-                            problems.append("extra coordinate %r: cell %s holds %r, its source cell holds %r" % ((name,) + bad))
+                        elif not same(var.values, visible(value)):
+                            bad = _first_bad_cell(var.values, visible(value))
+                            problems.append("extra coordinate %r: cell %s holds %r, its source cell shows %r%s" % (
+                                (name,) + bad + (" (a masked cell must show NaN)" if isinstance(value, np.ma.MaskedArray) else "",)))
         run.evaluated("make_xarray_grid")
         run.observe_max("largest_grid_cells_compared", shape[0] * shape[1])
+        for value in (datas or []):
+            if container_of(value) != "ndarray":
+                run.count("spelling:make_data=" + container_of(value))
+        for value in coords[2:]:
+            if container_of(value) != "ndarray":
+                run.count("spelling:make_extra_coordinate=" + container_of(value))
         run.observe_max("mismatching_cells_tolerated", 0)
         run.count("class:make_coords_%s" % ("1d" if ndims[0] == 1 else "2d"))
         run.count("spelling:make_axis=%s" % ("list" if isinstance(coords[0], list) else "ndarray_" + str(np.asarray(coords[0]).dtype)))
@@ -563,6 +577,25 @@ def install(tap, run):
     tap.function(vu, "meshgrid_from_1d", post=post_from1d)
     tap.function(vu, "make_xarray_grid", post=post_make)
     tap.function(vu, "grid_to_table", post=post_table)
+
+
+def visible(value):
+    """
+    What a container shows: a numpy.ma.MaskedArray shows NaN at its masked cells (never the number stored under the mask) and its
+    data elsewhere; lists of lists show their numbers.
+    """
+    if isinstance(value, np.ma.MaskedArray):
+        dtype = value.dtype if value.dtype.kind == "f" else np.dtype("float64")
+        return np.ma.filled(value.astype(dtype), np.nan)
+    return np.asarray(value)
+
+
+def container_of(value):
+    if isinstance(value, np.ma.MaskedArray):
+        return "masked_some" if np.any(np.ma.getmaskarray(value)) else "masked_none"
+    if isinstance(value, list):
+        return "list_of_lists"
+    return "ndarray"
 
 
 def _first_bad_cell(got, want):
@@ -692,19 +725,44 @@ def broadcast_mesh(e_vec, n_vec, rng=None):
     return east, north
 
 
+def contain(rng, cfg, key, k, lists=True):
+    """
+    cfg[key][k] in another container: a MaskedArray with some cells masked (the number stored under the mask is -99999; the
+    expectation kept in cfg becomes NaN there), a MaskedArray with nothing masked, or a plain list of lists.
+    """
+    base = cfg[key][k]
+    roll = rng.random()
+    if roll < 0.12 and base.size >= 2:
+        mask = rng.random(base.shape) < 0.25
+        mask.ravel()[int(rng.integers(0, base.size))] = True
+        mask.ravel()[int(rng.integers(0, base.size))] = False
+        hidden = base.copy()
+        hidden[mask] = -99999
+        expected = base.astype(base.dtype if base.dtype.kind == "f" else "float64")
+        expected[mask] = np.nan
+        cfg[key][k] = expected
+        return np.ma.MaskedArray(hidden, mask=mask)
+    if roll < 0.17:
+        return np.ma.MaskedArray(base.copy())
+    if lists and roll < 0.25:
+        return base.tolist()
+    return base
+
+
 def make_arguments(cfg, rng):
     """Positional/keyword arguments of make_xarray_grid in one of the accepted spellings."""
+    extras_in = tuple(contain(rng, cfg, "extras", k, lists=False) for k in range(len(cfg["extras"])))
     if cfg["two_d"]:
         east, north = broadcast_mesh(cfg["e_vec"], cfg["n_vec"], rng)
-        coords = (east, north) + tuple(cfg["extras"])
+        coords = (east, north) + extras_in
     else:
-        coords = (cfg["e_vec"], cfg["n_vec"]) + tuple(cfg["extras"])
+        coords = (cfg["e_vec"], cfg["n_vec"]) + extras_in
         if rng.random() < 0.15:
             # axis vectors as plain Python lists of numbers
-            coords = (cfg["e_vec"].tolist(), cfg["n_vec"].tolist()) + tuple(cfg["extras"])
+            coords = (cfg["e_vec"].tolist(), cfg["n_vec"].tolist()) + extras_in
     if rng.random() < 0.2:
         coords = list(coords)
-    datas = cfg["datas"]
+    datas = [contain(rng, cfg, "datas", k) for k in range(len(cfg["datas"]))]
     if len(datas) == 1 and rng.random() < 0.5:
         roll = rng.random()
         data = datas[0]
@@ -777,6 +835,8 @@ def run_case(run, tap, stream, index, rng):
             _stream_probe(run, rng, vu, xr)
         elif stream == "twin":
             _stream_twin(run, rng, vu, xr)
+        elif stream == "large":
+            _stream_large(run, rng, vu, xr, index)
 
 
 def call_make(run, rng, vu, cfg, coords, data, names, kwargs):
@@ -1091,6 +1151,55 @@ def _stream_nested(run, rng, vd, xr):
 
     vd.project_grid(array, projection, method=str(rng.choice(["nearest", "linear"])), antialias=bool(rng.random() < 0.5))
     run.count("nested:project_grid")
+
+
+LARGE_SHAPES = [(450, 600), (512, 512), (300, 1000), (1001, 263), (263, 1001), (700, 431)]
+
+
+def _stream_large(run, rng, vu, xr, index):
+    """
+    Large counts (>= 2**18 cells): arrays -> make_xarray_grid -> grid_to_table for Dataset and DataArray inputs; the monitors and the
+    round trip compare EVERY cell / row (values 4096 * row + column, so row-major order and pairing are unambiguous).
+    """
+    nn, ne = LARGE_SHAPES[index % len(LARGE_SHAPES)]
+    scale = float(10 ** rng.uniform(-2, 4))
+    e_vec, n_vec = gen_axis(rng, ne, scale), gen_axis(rng, nn, scale * 1.7)
+    i, j = np.indices((nn, ne))
+    n_vars = int(rng.choice([1, 2]))
+    datas = [(k + 1) * 1e7 + 4096.0 * i + j + 0.25 for k in range(n_vars)]
+    extras = [-(5e7 + 4096.0 * i + j)] if rng.random() < 0.6 else []
+    names = ["first", "second"][:n_vars]
+    dims = DIM_CHOICES[int(rng.integers(0, len(DIM_CHOICES)))]
+    if rng.random() < 0.5:
+        coords = (e_vec, n_vec) + tuple(extras)
+    else:
+        coords = broadcast_mesh(e_vec, n_vec) + tuple(extras)
+    grid = vu.make_xarray_grid(coords, tuple(datas), names, dims=dims, extra_coords_names=["height"] if extras else None)
+    table = vu.grid_to_table(grid)
+    run.evaluated("roundtrip_arrays_grid_table")
+    want = {dims[0]: np.repeat(n_vec, ne), dims[1]: np.concatenate([e_vec] * nn)}
+    want.update({name: arr.reshape(-1) for name, arr in zip(names, datas)})
+    if extras:
+        want["height"] = extras[0].reshape(-1)
+    problem = None
+    if sorted(table.columns) != sorted(want) or len(table) != nn * ne:
+        problem = "columns %r / %d rows, expected %r / %d rows" % (list(table.columns), len(table), sorted(want), nn * ne)
+    else:
+        for name, values in want.items():
+            if not same(table[name].to_numpy(), values):
+                bad = int(np.argmax(table[name].to_numpy() != values))
+                problem = "column %r of the table is not the raveled input (first at row %d = cell [%d, %d])" % (name, bad, bad // ne, bad % ne)
+                break
+    if problem:
+        run.violation("roundtrip_arrays_grid_table", problem, {"shape": [nn, ne], "dims": list(dims), "names": names, "table_tail": table.tail(5)},
+                      key="roundtrip-large:" + problem.split(" ")[0])
+    # DataArray inputs: one pulled out of the Dataset, one made by hand (unnamed)
+    vu.grid_to_table(grid[names[-1]])
+    hand = xr.DataArray(datas[0], coords={dims[1]: e_vec, dims[0]: n_vec}, dims=dims)
+    vu.grid_to_table(hand)
+    run.count("class:large_grid_%dx%d" % (nn, ne))
+    run.count("class:large_grids_of_2**18_cells_or_more" if nn * ne >= 2 ** 18 else "class:large_grid_smaller_than_intended")
+    run.sample("large", {"shape": [nn, ne], "dims": list(dims), "variables": names, "table_rows": len(table), "table_tail": table.tail(3)})
 
 
 def twin_axis(rng, vec, mode):
